@@ -124,7 +124,7 @@ fn oracle(hv: &HVocab, t: &GTree, start: &[usize], p: &HParams, res: &Res, sink:
         }
     }
     match res {
-        Res::Err(_, Some(uri)) if [XHTML_URI, MATHML_URI, SVG_URI].contains(&uri.as_str()) && !has_attr_in_ns(sub, hv, uri) => {
+        Res::Err(_, Some(uri)) if [XHTML_URI, HTTPS_URI, MATHML_URI, SVG_URI].contains(&uri.as_str()) && !has_attr_in_ns(sub, hv, uri) => {
             let sig = if uri == XHTML_URI { "C19:xhtml-namespace-constant-is-https" } else { "C19:missing-prefix-for-unprefixed-namespace" };
             fnd(sig, format!("MissingPrefix({}) although only elements are in that namespace (they must be written unprefixed)", uri))
         }
@@ -321,6 +321,9 @@ fn corpus(sink: &mut Sink) {
             (e(h("div"), vec![GTree::leaf(Namespace(2, MATHML)), e(mml("math"), vec![]), e(h("p"), vec![e(mml("math"), vec![])])]), vec![], both.to_vec()),
             // MathML inside SVG inside XHTML: the default namespace changes three times
             (e(x("p"), vec![e(svg("svg"), vec![e(x("p"), vec![e(svg("svg"), vec![])]), e(mml("math"), vec![])])]), vec![], both.to_vec()),
+            // the same with the crate's own XHTML constant
+            (e(hv.id("p", hv.ns_https), vec![e(svg("svg"), vec![e(hv.id("p", hv.ns_https), vec![e(svg("svg"), vec![])]), e(mml("math"), vec![])])]), vec![], both.to_vec()),
+            (e(hv.id("div", hv.ns_https), vec![GTree::leaf(Namespace(2, hv.ns_https)), e(hv.id("BR", hv.ns_https), vec![]), e(hv.id("script", hv.ns_https), vec![tx("a<b&&c")]), e(hv.id("span", hv.ns_https), vec![GTree::leaf(Attribute(hv.id("checked", hv.ns_https), "Checked".into())), tx("a<b&\u{a0}")])]), vec![], both.to_vec()),
             // the real XHTML namespace: void element, raw text, prefix declared / not declared
             (e(x("div"), vec![GTree::leaf(Namespace(0, XHTML)), e(x("br"), vec![]), e(x("script"), vec![tx("a<b&&c")])]), vec![], both.to_vec()),
             (e(x("br"), vec![]), vec![], vec![plain.clone()]),
@@ -363,14 +366,16 @@ fn exhaustive(sink: &mut Sink) {
         let e = |n: usize, kids: Vec<GTree>| GTree::new(Element(n), kids);
         let tx = |s: &str| GTree::leaf(Text(s.to_string()));
         (
-            vec![hv.id("div", 0), hv.id("p", XHTML), hv.id("svg", SVG), hv.id("custom", 0), hv.id("a", NS_A), hv.id("SCRIPT", 0)],
-            vec![None, Some((0, SVG)), Some((2, SVG)), Some((2, XHTML)), Some((0, NS_A)), Some((3, MATHML))],
+            vec![hv.id("div", 0), hv.id("p", XHTML), hv.id("p", hv.ns_https), hv.id("svg", SVG), hv.id("custom", 0), hv.id("a", NS_A), hv.id("SCRIPT", 0)],
+            vec![None, Some((0, SVG)), Some((2, SVG)), Some((2, XHTML)), Some((2, hv.ns_https)), Some((0, NS_A)), Some((3, MATHML))],
             vec![
                 e(hv.id("svg", SVG), vec![]),
                 e(hv.id("svg", SVG), vec![GTree::leaf(Namespace(4, SVG)), e(hv.id("g", SVG), vec![])]),
                 e(hv.id("math", MATHML), vec![tx("<")]),
                 e(hv.id("br", 0), vec![]),
                 e(hv.id("BR", XHTML), vec![]),
+                e(hv.id("BR", hv.ns_https), vec![]),
+                e(hv.id("style", hv.ns_https), vec![tx("a<b&c")]),
                 e(hv.id("script", 0), vec![tx("a<b&c")]),
                 e(hv.id("span", XHTML), vec![tx("a<b&c\u{a0}")]),
                 tx("t&<"),
@@ -400,9 +405,7 @@ fn exhaustive(sink: &mut Sink) {
 }
 
 pub fn run(seed: u64, count: usize, tier: &str, sink: &mut Sink) {
-    // `Rng::new(a)` and `Rng::new(b)` are the same stream shifted by `b - a` draws: start from a
-    // mixed state so that different seeds explore different inputs
-    let mut rng = Rng(Rng::new(seed ^ 0x47A15).next());
+    let mut rng = Rng::new(seed ^ 0x47A15);
     with_vocab(|hv| sink.emit(hv.v.wire(), "ok".to_string()));
     corpus(sink);
     if tier == "thorough" {
